@@ -865,3 +865,64 @@ Example C07_tr_paragraph_runs :
    = Ok (VInt 0, [cstr_block [97; 195; 169; 98]; [VPtr 0 1]])).
 Proof. cbv zeta. repeat match goal with |- _ /\ _ => split end; vm_compute; reflexivity. Qed.
 End C07_translated_2.
+
+(* ---- the translation tie, continued (coq/TrViMot.v, tools/c2clite.d/89_vimot.list): lbuf_findchar (f F t T ; ,) of mot.c.
+   Lines: valid UTF-8 (NV.UcSpec.valid), so that the byte pointers of the C text (uc_chr / uc_next / uc_prev / uc_off / uc_code) and the
+   characters of the model (chop) are the same thing (TrViMot: chop_chars, next_at, prev_at, code_at).  The address-taken local
+   `char *s` of the C function is a fresh one-cell block that stays behind at the end of memory (CLite never reclaims it): [[sv]]. *)
+From NV Require TrViMot.
+Section C07_translated_3.
+Import CLite CLiteProps GenCFuncs TrLbufBase TrUc TrMot TrViMot.
+
+(* for every buffer in memory, every row, every cursor on a character of its line, every command letter cmd, every count
+   n <> 0 inside int (n < 0 = the reversed direction, as `,` passes it), every searched character cs (a C string in memory):
+   lbuf_findchar returns 0 and stores the model's offset in *off, or returns 1 and stores nothing *)
+Theorem C07_tr_lbuf_findchar : forall m lb bln lbs lines br bo bc cst (cmdN : N) n r o d fuel,
+  lbuf_at m lb bln lbs lines -> lines_small lines -> lines_valid lines ->
+  cell_at m br r -> cell_at m bo o -> i32 r -> i32 o ->
+  str_at m bc cst -> bytes_lt256 cst -> (uc_len_b (nthb cst 0) - 1 <= length cst)%nat ->
+  (Z.of_N cmdN <= 2147483647)%Z -> (-2147483647 <= n <= 2147483647)%Z -> n <> 0%Z ->
+  (forall l, getl (map chop lines) r = Some l -> (0 <= o < slen l)%Z) ->
+  (maxlen lines < fuel)%nat ->
+  exists sv,
+  callf cprog fuel (S (S (S (S d)))) F_lbuf_findchar [VPtr lb 0; VPtr bc 0; VInt (Z.of_N cmdN); VInt n; VPtr br 0; VPtr bo 0] m
+  = match lbuf_findchar (map chop lines) cst cmdN n r o with
+    | Some o' => Ok (VInt 0, upd m bo [VInt o'] ++ [[sv]])
+    | None => Ok (VInt 1, m ++ [[sv]])
+    end.
+Proof. exact tr_lbuf_findchar. Qed.
+Print Assumptions C07_tr_lbuf_findchar.
+
+(* it runs: the line "axbxc\195\169x\n" (the last x behind a two-byte character) in memory behind the program's globals, the
+   searched character "x" in a block of its own; 2fx from offset 0 lands on offset 3, 3fx on offset 6, 4fx fails, 2tx stops
+   one short (2), 2Fx from offset 6 lands on 1, ;-reversed (n = -1, cmd = f) from 3 lands on 1 -- the interpreter on the
+   translated C text and the model agree, and the memory satisfies the hypotheses of the theorem *)
+Example C07_tr_findchar_runs :
+  let lines := [[97; 120; 98; 120; 99; 195; 169; 120; 10]]%N in
+  let G := ex_G in
+  let st : block := repeat (VInt 0) 64 ++ [VPtr (G + 1) 0; VInt 0; VInt 1; VInt 4] ++ repeat (VInt 0) 7 in
+  let mem o := cglobals ++ [st; [VPtr (G + 2) 0; VInt 0; VInt 0; VInt 0]; cstr_block (zb (nthl lines 0)); [VInt 0]; [VInt o]; cstr_block [120]] in
+  let run cmd n o := callf cprog 100 10 F_lbuf_findchar [VPtr G 0; VPtr (G + 5) 0; VInt cmd; VInt n; VPtr (G + 3) 0; VPtr (G + 4) 0] (mem o) in
+  let ok o' p := Ok (VInt 0, mem o' ++ [[VPtr (G + 2) p]]) in
+  (forall o, lbuf_at (mem o) G (G + 1) [G + 2]%nat lines /\ cell_at (mem o) (G + 3) 0 /\ cell_at (mem o) (G + 4) o /\ str_at (mem o) (G + 5) [120%N]) /\
+  lines_small lines /\ lines_valid lines /\
+  run 102 2 0 = ok 3 3 /\ lbuf_findchar (map chop lines) [120%N] 102 2 0 0 = Some 3 /\
+  run 102 3 0 = ok 6 7 /\ lbuf_findchar (map chop lines) [120%N] 102 3 0 0 = Some 6 /\
+  (exists p, run 102 4 0 = Ok (VInt 1, mem 0 ++ [[VPtr (G + 2) p]])) /\ lbuf_findchar (map chop lines) [120%N] 102 4 0 0 = None /\
+  run 116 2 0 = ok 2 2 /\ lbuf_findchar (map chop lines) [120%N] 116 2 0 0 = Some 2 /\
+  run 70 2 6 = ok 1 1 /\ lbuf_findchar (map chop lines) [120%N] 70 2 0 6 = Some 1 /\
+  run 102 (-1) 3 = ok 1 1 /\ lbuf_findchar (map chop lines) [120%N] 102 (-1) 0 3 = Some 1.
+Proof.
+  cbv zeta. split.
+  { intro o. split; [|repeat split; reflexivity]. constructor.
+    - eexists. repeat split; reflexivity.
+    - eexists. split; [reflexivity|]. split; [cbn; lia|]. intros [|i] Hi; [reflexivity|cbn in Hi; lia].
+    - reflexivity.
+    - intros [|i] Hi; [reflexivity|cbn in Hi; lia].
+    - repeat (apply NoDup_cons; [cbn [In]; intros H; repeat (destruct H as [H|H]; [lia|]); exact H|]). apply NoDup_nil.
+    - repeat (apply Forall_cons; [repeat (apply Forall_cons; [cbv; split; reflexivity|]); apply Forall_nil|]). apply Forall_nil. }
+  split; [split; [cbn; lia|repeat constructor; cbn; lia]|].
+  split. { repeat constructor. exists [97; 120; 98; 120; 99; 233; 120; 10]%N. split; [|reflexivity]. repeat constructor; cbv; intuition discriminate. }
+  repeat match goal with |- _ /\ _ => split end; try (vm_compute; reflexivity). eexists. vm_compute. reflexivity.
+Qed.
+End C07_translated_3.
